@@ -375,12 +375,18 @@ snarf_scale(const char *spec)
 			case 'I': {
 				/* Gent's types */
 				const char *kp = spec + 7U;
-				r = SCALE_HIJRI_IA;
-				r += (echs_scale_t)((*kp == 'V' || *kp++ == 'I') * 2U);
-				r += (echs_scale_t)((*kp == 'V' || *kp++ == 'I') * 2U);
-				r += (echs_scale_t)((*kp == 'C'));
-				r += (echs_scale_t)((*kp == 'V') ? 2U : 0U);
-				r += (echs_scale_t)(*++kp == 'C');
+				unsigned int n = 0U;
+
+				/* I, II, III or IV, then A or C, and nothing
+				 * of what follows the token */
+				if (*kp == 'V') {
+					n = 3U;
+					kp++;
+				} else {
+					for (; *kp == 'I' && n < 2U; kp++, n++);
+				}
+				r = (echs_scale_t)
+					(SCALE_HIJRI_IA + 2U * n + (*kp == 'C'));
 				break;
 			}
 			}
